@@ -109,8 +109,8 @@ Section Jv.
   (* ---------------- leaves ---------------- *)
   Lemma c18_de_regex_peel r : rx_wf rx_ok r = true -> de_regex (j_regex r) = Some r.
   Proof.
-    unfold rx_wf. intros H. apply andb_prop in H. destruct H as [W R].
-    unfold j_regex, Codec.de_regex. rewrite c18_wrap_peel_of_wrapped by exact W. now rewrite R.
+    unfold rx_wf. intros H. apply andb_prop in H. destruct H as [H P]. apply andb_prop in H. destruct H as [W R].
+    unfold j_regex, Codec.de_regex. rewrite c18_wrap_peel_of_wrapped by exact W. now rewrite R, P.
   Qed.
   Lemma c18_de_dec_str d : de_dec (j_dec_str d) = Some d.
   Proof. apply c18_dec_parse_show. Qed.
@@ -252,15 +252,16 @@ Section Jv2.
 
   (* malformed leaves are rejected: a leaf is accepted only as ... *)
   Lemma c18_de_regex_inv x r : de_regex x = Some r ->
-    exists p, x = JStr p /\ rx_ok (wrap_s p) = true /\ r = wrap_s p.
+    exists p, x = JStr p /\ rx_ok p = true /\ rx_ok (wrap_s p) = true /\ r = wrap_s p.
   Proof.
     destruct x; cbn [Codec.de_regex]; try discriminate.
-    destruct (rx_ok (wrap_s s)) eqn:E; [|discriminate]. intros H. inversion H. now exists s.
+    destruct (rx_ok s) eqn:E0; [|discriminate].
+    destruct (rx_ok (wrap_s s)) eqn:E; [|discriminate]. cbn [andb]. intros H. inversion H. now exists s.
   Qed.
   Lemma c18_de_regex_wf x r : de_regex x = Some r -> rx_wf rx_ok r = true.
   Proof.
-    intros H. apply c18_de_regex_inv in H. destruct H as (p & _ & R & ->).
-    unfold rx_wf. now rewrite c18_is_wrapped_wrap, R.
+    intros H. apply c18_de_regex_inv in H. destruct H as (p & _ & P & R & ->).
+    unfold rx_wf. now rewrite c18_is_wrapped_wrap, R, c18_peel_wrap, P.
   Qed.
   Lemma c18_de_dec_inv x d : de_dec x = Some d ->
     exists s, (x = JStr s \/ x = JNum s \/ x = JObj [(k_number_token, JStr s)]) /\ dec_parse s = Some d.
@@ -459,13 +460,14 @@ Section Jv2.
   Qed.
 
   (* a pattern that does not compile (inside the wrapper) is rejected wherever it occurs *)
-  Lemma c18_bad_regex_rejected p : rx_ok (wrap_s p) = false ->
+  Lemma c18_bad_regex_rejected p : rx_ok p = false \/ rx_ok (wrap_s p) = false ->
     de_regex (JStr p) = None /\
     forall tag, In tag [v_TxnCode; v_TxnDescription; v_TxnTags; v_TxnComments; v_PostingAccount;
                         v_PostingComment; v_PostingCommodity] ->
       of_jv (j_variant tag [(k_regex, JStr p)]) = None.
   Proof.
-    intros H. assert (D : de_regex (JStr p) = None) by (cbn [Codec.de_regex]; now rewrite H).
+    intros H. assert (D : de_regex (JStr p) = None).
+    { cbn [Codec.de_regex]. destruct H as [H|H]; rewrite H; [reflexivity | now rewrite andb_false_r]. }
     split; [exact D|]. intros tag I. cbn [In] in I.
     destruct I as [<-|[<-|[<-|[<-|[<-|[<-|[<-|[]]]]]]]].
     - now rewrite c18_of_Code, D.
@@ -555,13 +557,15 @@ Lemma c18_rejects rx_ok :
   (forall A (f : jv -> option A) k v1 v2 a b c, get_field f k (a ++ (k, v1) :: b ++ (k, v2) :: c) = None) /\
   (* leaves: only a string holding a pattern that compiles / a number or string holding a decimal /
      a string holding a time stamp / a string holding a UUID *)
-  (forall x r, de_regex rx_ok x = Some r -> exists p, x = JStr p /\ rx_ok (wrap_s p) = true /\ r = wrap_s p) /\
+  (forall x r, de_regex rx_ok x = Some r ->
+     exists p, x = JStr p /\ rx_ok p = true /\ rx_ok (wrap_s p) = true /\ r = wrap_s p) /\
   (forall x d, de_dec x = Some d ->
      exists s, (x = JStr s \/ x = JNum s \/ x = JObj [(k_number_token, JStr s)]) /\ dec_parse s = Some d) /\
   (forall x z, de_ts x = Some z -> exists s, x = JStr s /\ ts_parse s = Some z) /\
   (forall x u, de_uuid x = Some u -> exists s, x = JStr s /\ uuid_parse s = Some u) /\
-  (* a pattern that does not compile is rejected in every regex-carrying variant *)
-  (forall p, rx_ok (wrap_s p) = false ->
+  (* a pattern that is not a regular expression on its own, or not inside the wrapper, is rejected in
+     every regex-carrying variant *)
+  (forall p, rx_ok p = false \/ rx_ok (wrap_s p) = false ->
      forall tag, In tag [v_TxnCode; v_TxnDescription; v_TxnTags; v_TxnComments; v_PostingAccount;
                          v_PostingComment; v_PostingCommodity] ->
        of_jv rx_ok (j_variant tag [(k_regex, JStr p)]) = None) /\
